@@ -29,7 +29,7 @@ CONV_TOL = (1e-4, 1e-12)
 CONSTR = {"quick": (("0", "path"), ("0.1", "path"), ("0.1", "zeros"), ("1.5", "path")),
           "thorough": (("0", "path"), ("0.1", "path"), ("0.1", "zeros"), ("1.5", "path"), ("0", "zeros"))}
 ALPHA = {"quick": (0.01, 1.0), "thorough": (0.01, 1.0, 10.0)}
-TIKHONOV = ("identity(None)", "second-difference(singular)", "first-cell-only(diag(1,0,..), singular)")
+TIKHONOV = ("identity(None)", "second-difference(singular)", "first-cell-only(diag(1,0,..), singular)", "forward-difference(non-symmetric, L^T L != L L^T)")
 # reduced parameter product used only for the 3x3 matrices of the thorough tier
 REDUCED = {"x0": ("none", "array"), "relax": (0.5, 1.0), "stops": ((1, 1e-4), (3, 1e-4), (7, 1e-4), (12, 1e-12)),
            "constr": (("0.1", "path"), ("1.5", "path"))}
@@ -473,6 +473,11 @@ def _run_lsq(case):
     for tname in TIKHONOV:
         if tname.startswith("identity"):
             T, targ = np.identity(n), None
+        elif tname.startswith("forward"):
+            T = np.zeros((n, n))                                   # (L x)_i = x_(i+1) - x_i, last row empty
+            for i in range(n - 1):
+                T[i, i], T[i, i + 1] = -1.0, 1.0
+            targ = T.copy()
         elif tname.startswith("second"):
             T = _laplacian("path", n)                              # second-difference operator (singular: T 1 = 0)
             targ = T.copy()      # the caller's own array, passed to every call of this case (as in an alpha scan); T stays pristine for the reference
